@@ -74,13 +74,13 @@ H("k03b_fixed_plain_3", "deflate_reader", ["C03", "C05"], tier="thorough", unwin
   claim="plain_text produced by the real write_literal/write_reference equals the replay of the RFC reference's tokens over the same window",
   functions=FIXED_FUNCS + ["DeflateReader::write_literal", "DeflateReader::write_reference"], bounds="fixed blocks of <= 2 tokens within 3 bytes over a 4-byte window (distances 1..4+produced, lengths up to 114)",
   assumptions=FIXED_ASSUME)
-H("k07w_fixed_token_write", "deflate_writer", ["C07", "C02", "C05"], unwind=7, unwindset={"RefBits.*::bits": 14, "RefBits.*code_bits": 10, "ref_fixed_block": 10, "k07w": 8,
+H("k07w_fixed_token_write", "deflate_writer", ["C07", "C02"], unwind=7, unwindset={"RefBits.*::bits": 14, "RefBits.*code_bits": 10, "ref_fixed_block": 10, "k07w": 8,
   "flush_whole_bytes": 5, "BitWriter::pad": 9}, timeout=1200, mem_gb=14, needs_gen=True,
   claim="the writer's bits for a fixed-Huffman block with one token decode (RFC 1951 reference decoder) to exactly that token: all literals, all (length, distance), length 258 as 285 and as 284+31, final flag, final padding; no surplus bytes",
   functions=["DeflateWriter::encode_block / encode_block_with_decoder (fixed arm)", "HuffmanWriter::write_literal/write_distance", "quantize_length/quantize_distance + tables", "BitWriter::write/pad/flush_whole_bytes", "DeflateWriter::flush_with_padding"],
   bounds="every literal 0..=255; every length 3..=258 x distance 1..=32768; irregular-258 flag; both final-flag values; all 256 padding bytes",
   assumptions=FIXED_ASSUME[:1] + ["BitWriter::flush_whole_bytes replaced by an equivalent that appends into reserved capacity without reallocation (real one runs in k07a / k02f)"])
-H("k07x_dynamic_token_write", "huffman_encoding", ["C07", "C02", "C05"], unwind=6, unwindset={"k07x": 14, "flush_whole_bytes": 6, "BitWriter::pad": 9}, timeout=1500, mem_gb=16,
+H("k07x_dynamic_token_write", "huffman_encoding", ["C07", "C02"], unwind=6, unwindset={"k07x": 14, "flush_whole_bytes": 6, "BitWriter::pad": 9}, timeout=1500, mem_gb=16,
   claim="under an arbitrary Huffman code (any lengths 1..=15 and code values for the three symbols involved) the writer emits exactly code ‖ length-extra ‖ code ‖ distance-extra ‖ EOB for every (length, distance) at every starting bit offset: no bit is lost or reordered",
   functions=["DeflateWriter::encode_block_with_decoder", "HuffmanWriter::write_literal/write_distance", "BitWriter::write/flush_whole_bytes/pad", "quantize_* + tables"],
   bounds="every length 3..=258 x distance 1..=32768 x code lengths 1..=15 and code values x 0..=7 pending bits", outside="literal tokens under dynamic codes (same write_literal path), irregular 258 under dynamic codes",
@@ -99,11 +99,11 @@ CABAC_FUNCS = ["PredictionCabacContext::encode_value/encode_misprediction/encode
                "write_bypass/read_bypass", "cabac::traits put_unary_encoded/put_n_bits/get_unary_encoded/get_n_bits (provided methods, real code)"]
 CABAC_ASSUME = ["VP8 arithmetic coder replaced by a transparent tagged channel (bit, context-slot id); the decoder must present the same slot"]
 for w in ("8", "16"):
-    H("k10a_exp_pair_" + w, "cabac_codec", ["C10", "C05"], unwind=34, timeout=600,
+    H("k10a_exp_pair_" + w, "cabac_codec", ["C10"], unwind=34, timeout=600,
       claim="read_exp_value(write_exp_encoded(v)) == v, same context slots, channel fully consumed (%s-slot context arrays)" % w,
       functions=CABAC_FUNCS[2:3] + CABAC_FUNCS[4:], bounds="every v < 2^31", assumptions=CABAC_ASSUME)
 for k in ["value", "misprediction"] + ["correction_%d" % i for i in range(10)]:
-    H("k10b_single_" + k, "cabac_codec", ["C10", "C05"], unwind=34, timeout=900, tier="quick" if k in ("value", "misprediction", "correction_0", "correction_3", "correction_9") else "thorough",
+    H("k10b_single_" + k, "cabac_codec", ["C10"], unwind=34, timeout=900, tier="quick" if k in ("value", "misprediction", "correction_0", "correction_3", "correction_9") else "thorough",
       claim="one %s operation, then finish, decodes to itself" % k, functions=CABAC_FUNCS,
       bounds="values v < 2^31 / widths 1..=16 with v < 2^width / both flags; 7 misprediction contexts symbolic; one harness per correction context (10)",
       assumptions=CABAC_ASSUME)
@@ -123,23 +123,25 @@ SCAN_CONTRACTS = ["contract stub decompress_deflate_stream: Err | Ok with 1 <= c
                   "contract stub skip_gzip_header: Err | Ok after consuming 10..=16 bytes (discharged by k01_gzip_hdr_16)",
                   "contract stub parse_zip_stream: Err | Ok((h, r)) with 30 <= h, h + r.compressed_size <= len (discharged by k01_zip_hdr_34)",
                   "contract stub parse_idat: Err | Ok with 12 <= total_chunk_length <= len (discharged by k01e_idat_total)"]
-SCAN_UW = {"next_signature": 10, "signature_hits": 18, "check_tiling": 8, "split_into_deflate_streams": 4, "k01a": 18}
-H("k01a_scan_tiling_8", "scan_deflate", ["C01", "C05"], unwind=6, unwindset=SCAN_UW, timeout=1800, mem_gb=20,
-  claim="split_into_deflate_streams never panics and its chunks tile the file exactly (every literal length within the remaining bytes), for every outcome the callees' contracts allow",
-  functions=["scan_deflate::split_into_deflate_streams", "scan_deflate::next_signature"], bounds="8-byte files: zeros with two symbolic 2-byte windows (offsets 1 and 5: each any byte pair, signature or not) x every contract-allowed callee outcome",
-  outside="more look-alikes per file; acceptance in the gzip/zip/IDAT arms needs longer files (k01a_scan_tiling_big)", assumptions=SCAN_CONTRACTS)
-H("k01a_scan_reject_all_8", "scan_deflate", ["C01", "C11", "C12"], unwind=6, unwindset=SCAN_UW, timeout=1800, mem_gb=20,
-  claim="when every analysis call rejects, split_into_deflate_streams returns exactly one literal chunk covering the file (none for the empty file)",
-  functions=["scan_deflate::split_into_deflate_streams", "scan_deflate::next_signature"], bounds="8-byte and 3-byte files: zeros with symbolic 2-byte windows at offsets 0 and 4", assumptions=SCAN_CONTRACTS[1:])
-H("k01a_scan_tiling_big", "scan_deflate", ["C01", "C05"], unwind=6, unwindset=dict(SCAN_UW, next_signature=1060, k01a=18), timeout=3000, mem_gb=24,
-  claim="as k01a_scan_tiling_8 on a file long enough for every arm to accept (gzip, zip, IDAT run > 1024 bytes), incl. the IDAT look-back right after an accepted stream",
-  functions=["scan_deflate::split_into_deflate_streams", "scan_deflate::next_signature"], bounds="1056-byte files: zeros with two symbolic 2-byte windows at offsets 4 and 12 x every contract-allowed callee outcome (any combination of two look-alikes, incl. an IDAT look-back into an accepted stream)",
-  assumptions=SCAN_CONTRACTS)
-H("k01_gzip_hdr_16", "scan_deflate", ["C01", "C05", "C06"], unwind=18, timeout=900,
-  claim="skip_gzip_header: Ok or Err, never panics; Ok implies >= 10 bytes consumed, CM == 8, cursor within the input", functions=["scan_deflate::skip_gzip_header"],
+SCAN_UW = {"next_signature": 1060, "check_tiling": 8, "split_into_deflate_streams": 4}
+SCAN_BOUNDS = "look-alikes at concrete offsets in an otherwise zero file (places and kinds concrete per instance) x every outcome the callees' contracts allow (Ok/Err, sizes, positions: symbolic)"
+H("k01a_scan_tiling_single", "scan_deflate", ["C01", "C05"], tier="thorough", unwind=5, unwindset=SCAN_UW, timeout=5400, mem_gb=44,
+  claim="split_into_deflate_streams never panics and its chunks tile the file exactly (every literal length within the remaining bytes) for one look-alike of each kind (zlib, gzip, zip, IDAT) in a 1056-byte file",
+  functions=["scan_deflate::split_into_deflate_streams", "scan_deflate::next_signature"], bounds=SCAN_BOUNDS, outside="symbolic file bytes (8 symbolic bytes needed > 20 GB), more than two look-alikes", assumptions=SCAN_CONTRACTS)
+H("k01a_scan_tiling_pairs", "scan_deflate", ["C01", "C05"], tier="thorough", unwind=5, unwindset=SCAN_UW, timeout=1800, mem_gb=16,
+  claim="as k01a_scan_tiling_single for an IDAT look-alike shortly after a zlib look-alike (look-back into an accepted stream) and for two zlib look-alikes",
+  functions=["scan_deflate::split_into_deflate_streams", "scan_deflate::next_signature"], bounds=SCAN_BOUNDS, assumptions=SCAN_CONTRACTS)
+H("k01a_scan_tiling_short", "scan_deflate", ["C01", "C05"], tier="thorough", unwind=5, unwindset=dict(SCAN_UW, next_signature=8), timeout=1800, mem_gb=16,
+  claim="as k01a_scan_tiling_single for files of 3, 4 and 6 bytes (look-alikes at the very end, IDAT with fewer than 4 bytes before it)",
+  functions=["scan_deflate::split_into_deflate_streams", "scan_deflate::next_signature"], bounds=SCAN_BOUNDS, assumptions=SCAN_CONTRACTS)
+H("k01a_scan_reject_all_8", "scan_deflate", ["C01", "C11", "C12"], unwind=6, unwindset=dict(SCAN_UW, next_signature=10, k01a_scan_reject=6), timeout=1800, mem_gb=16,
+  claim="when every analysis call rejects, split_into_deflate_streams returns exactly one literal chunk covering the file",
+  functions=["scan_deflate::split_into_deflate_streams", "scan_deflate::next_signature"], bounds="8-byte files with look-alike pairs (zlib,gzip) (zip,IDAT) (IDAT,zlib) (none) at concrete offsets", assumptions=SCAN_CONTRACTS[1:])
+H("k01_gzip_hdr_16", "scan_deflate", ["C01", "C05", "C06"], unwind=18, unwindset={"gzip_hdr": 18}, timeout=900,
+  claim="skip_gzip_header: Ok or Err, never panics; Ok exactly when a complete header with CM = 8 is present, and then the cursor is at the RFC 1952 header length (10 + FEXTRA + FNAME + FCOMMENT + FHCRC in that order)", functions=["scan_deflate::skip_gzip_header"],
   bounds="every input of <= 16 bytes incl. truncated ones (EOF-reporting source), all FLG combinations", assumptions=["input seam SrcEof<N>"])
 H("k01_zip_hdr_34", "scan_deflate", ["C01", "C05", "C06"], unwind=6, timeout=900, mem_gb=12,
-  claim="parse_zip_stream: Ok or Err, never panics; Ok((h, r)) implies 30 <= h and h + r.compressed_size <= len",
+  claim="parse_zip_stream: Ok or Err, never panics; Ok((h, r)) implies signature PK\\x03\\x04, method 8, h == 30 + name length + extra length and h + r.compressed_size <= len",
   functions=["scan_deflate::parse_zip_stream", "ZipLocalFileHeader::create_and_load"], bounds="every input of <= 34 bytes (name/extra lengths any u16)",
   assumptions=SCAN_CONTRACTS[:1])
 
@@ -173,7 +175,7 @@ H("k01c_literal_chunks_rt", "preflate_container", ["C01", "C13", "C04"], unwind=
   claim="literal chunks written by write_chunk_block are reproduced verbatim by recreated_zlib_chunks", functions=CONT_FUNCS,
   bounds="files of 0,1,3,5 symbolic bytes in 1-2 literal chunks (4 concrete shapes (length, split): chunk tags/lengths at concrete offsets)",
   assumptions=["deflate/PNG arms of read_chunk_block cut by Err stubs (unreachable for literal-only containers; symbolic execution would otherwise enter the whole reconstruction)"])
-K13_UW = {"fragmented_io": 12, "io_faults": 12, "write_varint": 3, "read_varint": 3}
+K13_UW = {"fragmented_io": 42, "io_faults": 42, "write_varint": 3, "read_varint": 3}
 K13_ASSUME = ["FragRead / FragWrite: concrete fragmentation pattern per instance (1, 2 or all bytes per call), hard error at a symbolic offset; read_exact / write_all are std's loops minus the Interrupted retry arm",
               "deflate/PNG arms of read_chunk_block cut by Err stubs (unreachable for literal-only containers)"]
 H("k13a_fragmented_io", "preflate_container", ["C13"], unwind=6, unwindset=K13_UW, timeout=1800, mem_gb=20,
@@ -217,7 +219,7 @@ H("k05b_tc_len_total", "tree_predictor", ["C05", "C01"], unwind=20,
   bounds="every u8 slice of length 1..=19 (calc_bit_lengths trims trailing zero symbols, so short slices occur)")
 
 TREE_FUNCS = ["tree_predictor::predict_ld_trees", "tree_predictor::reconstruct_ld_trees", "predict_code_type", "predict_code_data"]
-H("k02b_ld_mirror_14_3", "tree_predictor", ["C02", "C08", "C05"], unwind=16, timeout=1200, mem_gb=14,
+H("k02b_ld_mirror_14_3", "tree_predictor", ["C02", "C08"], unwind=16, timeout=1200, mem_gb=14,
   claim="reconstruct_ld_trees(predict_ld_trees(pred, target)) == target and the codec is consumed exactly, for every predicted length vector and every target RLE sequence",
   functions=TREE_FUNCS, bounds="predicted vectors of length <= 14 (any u8 values), target sequences of <= 3 RLE items (Code 0..15, Repeat 3..6, ZeroShort 3..10, ZeroLong 11..14) covering the vector exactly",
   assumptions=["recording codec Rec"])
@@ -237,7 +239,7 @@ MODEL_ASSUME = ["model hash chain at the HashChain trait seam: solver-chosen can
 HOLDER_FUNCS = ["HashChainHolderImpl::calculate_hops", "HashChainHolderImpl::hop_match", "hash_chain_holder::prefix_compare", "PreflateInput::*"]
 HOLDER_UW = {"try_from_fn_erased": 16, "prefix_compare": 14, "valid_reference": 14, "ModelChain.*any": 14, "calculate_hops": 5, "hop_match": 5, "match_token_offset": 5, "from_fn": 5}
 for w in ("h3", "h4"):
-    H("k02d_hops_inverse_" + w, "hash_chain_holder", ["C02", "C08", "C05"], unwind=6, unwindset=HOLDER_UW, timeout=1800, mem_gb=16,
+    H("k02d_hops_inverse_" + w, "hash_chain_holder", ["C02", "C08"], unwind=6, unwindset=HOLDER_UW, timeout=1800, mem_gb=16,
       claim="if calculate_hops(target) = Ok(h) then hop_match(len, h) = Ok(target.dist) on the same chain; neither panics (%s-byte hash width)" % w[1],
       functions=HOLDER_FUNCS, bounds="texts of 4..=12 bytes, every position, every valid reference, <= 3 chain candidates per position, every parameter vector in estimator_range",
       outside="longer texts/chains; the real hash-table walk", assumptions=MODEL_ASSUME)
@@ -252,20 +254,21 @@ TOKEN_FUNCS = ["TokenPredictor::predict_block", "TokenPredictor::recreate_block"
                "TokenPredictor::commit_token", "HashChainHolderImpl::{match_token_offset, calculate_hops, hop_match, update_hash}", "DictionaryAddPolicy::update_hash",
                "prefix_compare", "encode_difference/decode_difference"]
 TOKEN_UW = dict(HOLDER_UW, **{"predict_block": 5, "recreate_block": 6, "any_tokens": 5, "token_mirror": 5, "same_ops": 50, "same_dictionary_updates": 18, "ModelChain.*update_hash": 10})
-for nm, lazy, w, tier in (("greedy_h3", False, 3, "quick"), ("lazy_h3", True, 3, "quick"), ("greedy_h4", False, 4, "quick"), ("lazy_h4", True, 4, "quick")):
-    H("k02e_token_mirror_" + nm, "token_predictor", ["C02", "C08", "C05"], unwind=6, unwindset=TOKEN_UW, timeout=2400, mem_gb=20, tier=tier,
+# measured: out of memory (20 GB) within 6-10 min even at text 6 / 2 tokens / 1 candidate: thorough tier only, NOT part of any quick claim
+for nm, lazy, w, tier in (("greedy_h3", False, 3, "thorough"), ("lazy_h3", True, 3, "thorough"), ("greedy_h4", False, 4, "thorough"), ("lazy_h4", True, 4, "thorough")):
+    H("k02e_token_mirror_" + nm, "token_predictor", ["C02", "C08", "C05"], unwind=6, unwindset=TOKEN_UW, timeout=5400, mem_gb=44, tier=tier,
       claim="recreate_block(predict_block(tokens)) == tokens and the corrections are consumed exactly, or predict_block returns Err; no panic (%s matching rows, %d-byte hash width)" % ("lazy" if lazy else "greedy", w),
-      functions=TOKEN_FUNCS, bounds="texts of <= 8 bytes, every valid tokenisation of a prefix into <= 3 tokens (literals / valid references, irregular-258 flag), <= 2 candidates per position and offset, fixed or dynamic block type, last/non-last, every parameter vector in estimator_range with %s matching" % ("lazy" if lazy else "greedy"),
+      functions=TOKEN_FUNCS, bounds="texts of <= 6 bytes, every valid tokenisation of a prefix into <= 2 tokens (literals / valid references, irregular-258 flag), <= 1 candidate per position and offset, fixed or dynamic block type, last/non-last, every parameter vector in estimator_range with %s matching" % ("lazy" if lazy else "greedy"),
       outside="longer texts, more tokens, longer chains, the real hash tables", assumptions=MODEL_ASSUME + ["recording codec Rec"])
-H("k02e_token_mirror_lazy_h3_t10", "token_predictor", ["C02", "C08"], unwind=6, unwindset=TOKEN_UW, timeout=7200, mem_gb=30, tier="thorough",
-  claim="as k02e_token_mirror_lazy_h3 with text <= 10, <= 4 tokens, <= 3 candidates", functions=TOKEN_FUNCS, bounds="T <= 10, 4 tokens, 3 candidates", assumptions=MODEL_ASSUME + ["recording codec Rec"])
-H("k02f_block_structure", "process", ["C02", "C08", "C05"], unwind=6, unwindset={"bit_writer::BitWriter::pad": 9, "k02f": 12, "same_ops": 50}, timeout=2400, mem_gb=20, needs_gen=True,
+H("k02e_token_mirror_lazy_h3_t8", "token_predictor", ["C02", "C08"], unwind=6, unwindset=TOKEN_UW, timeout=7200, mem_gb=40, tier="thorough",
+  claim="as k02e_token_mirror_lazy_h3 with text <= 8, <= 3 tokens, <= 2 candidates", functions=TOKEN_FUNCS, bounds="T <= 8, 3 tokens, 2 candidates", assumptions=MODEL_ASSUME + ["recording codec Rec"])
+H("k02f_block_structure", "process", ["C02", "C08", "C05"], tier="thorough", unwind=6, unwindset={"bit_writer::BitWriter::pad": 9, "k02f": 12, "same_ops": 50}, timeout=2400, mem_gb=20, needs_gen=True,
   claim="decode_mispredictions(encode_mispredictions(blocks)) reproduces exactly the bytes the real writer emits for the blocks: block types, stored length/padding, TokenCount signalling, empty blocks, EOF flags, final padding",
   functions=["process::encode_mispredictions", "process::predict_blocks", "process::decode_mispredictions", "process::recreate_blocks", "TokenPredictor::predict_block/recreate_block (literal-only paths)",
              "DeflateWriter::encode_block", "DeflateWriter::flush_with_padding"],
   bounds="every list of <= 3 blocks, each stored (<= 2 bytes, any 5 padding bits) or fixed-Huffman with <= 2 literals; max_token_count any u16 >= 1; any final padding byte; no dictionary (HashAlgorithm::None)",
   outside="dynamic blocks (need the Huffman length calculator over 316 symbols), reference tokens (k02e)", assumptions=FIXED_ASSUME[:1] + ["recording codec Rec"])
-H("k03e_consumed_prefix", "process", ["C03", "C02", "C05"], unwind=10, timeout=1200, mem_gb=12,
+H("k03e_consumed_prefix", "process", ["C03", "C02", "C05"], tier="thorough", unwind=10, timeout=1200, mem_gb=12,
   claim="parse_deflate: compressed_size is the byte cursor after the final block; bytes after it influence nothing (replaced or removed: same result)",
   functions=["process::parse_deflate", "DeflateReader::read_block (stored)", "DeflateReader::read_eof_padding"], bounds="all 8-byte inputs whose single final block is stored (payload 0..=3)")
 
@@ -274,8 +277,10 @@ REF_ASSUME = ["reference = /verif/reference/preflate_ref (frozen copy of /repo a
               "both sides are reached through the same plain-typed export module text (/verif/reference/export/*.rs) compiled against each tree"]
 def K4(name, module, claim, functions, bounds, **kw):
     H(name, module, ["C04"] + kw.pop("also", []), claim=claim, functions=functions, bounds=bounds, assumptions=REF_ASSUME, needs_ref=True, **kw)
-K4("k04a_hash_equiv", "hash_algorithm", "all 8 hash functions (7 algorithms + libdeflate's secondary 3-byte hash) return the reference build's value", ["*Hash::get_hash", "num_hash_bytes"],
+K4("k04a_hash_equiv", "hash_algorithm", "the shift/xor/table hash functions (zlib rotating, miniz, random vector, crc32c) return the reference build's value", ["*Hash::get_hash", "num_hash_bytes"],
    "every 4-byte input; Zlib rotating hash with every mask and shift <= 15", unwind=5, timeout=900)
+K4("k04a_hash_equiv_mul", "hash_algorithm", "the multiplicative hash functions (libdeflate 4-byte, fast variant, secondary 3-byte, zlib-ng) return the reference build's value", ["*Hash::get_hash", "num_hash_bytes"],
+   "every 4-byte input", unwind=5, timeout=3000, tier="thorough")
 K4("k04b_enum_discriminants", "statistical_codec", "numbering of the enums written as values (strategies, block types, tree code types), chunk tags, version and match constants equals the reference build's (context-enum numbering is deliberately not compared: a permutation of equally-initialised slots is not a format change)",
    ["enum discriminants", "format constants"], "all variants (concrete)", unwind=21, timeout=600)
 K4("k04c_add_policy_calls", "add_policy_estimator", "DictionaryAddPolicy::update_hash makes the same dictionary insertions as the reference build and only in-range ones; is_at_32k_boundary agrees",
@@ -294,22 +299,22 @@ K4("k04e_ld_ops_equiv", "tree_predictor", "calc_tc_lengths_without_trailing_zero
 K4("k04f_param_header_equiv", "preflate_parameter_estimator", "PreflateParameters::write emits the same field sequence (order, widths, values) as the reference build", ["PreflateParameters::write"],
    "every parameter vector in estimator_range with min_len set", unwind=42, timeout=900)
 K4("k04g_nodict_params_equiv", "preflate_parameter_estimator", "the parameter vector estimated for dictionary-free streams (incl. default block size 16386) equals the reference build's",
-   ["estimate_preflate_parameters (Store / HuffOnly branch)", "extract_preflate_info", "estimate_preflate_strategy", "estimate_preflate_huff_strategy"], "one stored block / one literal-only fixed block (concrete)", unwind=42, timeout=900, mem_gb=16)
+   ["estimate_preflate_parameters (Store / HuffOnly branch)", "extract_preflate_info", "estimate_preflate_strategy", "estimate_preflate_huff_strategy"], "one stored block / one literal-only fixed block (concrete)", unwind=42, timeout=900, mem_gb=16, tier="thorough")
 K4("k04h_cabac_symbols_equiv", "cabac_codec", "binarisation: the bits put on the arithmetic coder for two operations + finish, their bypass/adaptive split and the partition of symbols into adaptive context slots (up to renaming) equal the reference build's; encode/decode_difference agree",
    ["PredictionCabacContext::encode_*", "write_exp_encoded", "flush_encode", "encode_difference", "decode_difference"], "all pairs of operations (3 kinds each), values < 16, widths 1..=4", unwind=18, unwindset={"k04h": 26}, timeout=1800, mem_gb=16)
 K4("k04i_container_bytes_equiv", "preflate_container", "varint bytes, literal chunk framing and IDAT descriptor layout equal the reference build's", ["write_varint", "write_chunk_block (literal)", "IdatContents::write_to_bytestream"],
-   "every u32; literal data <= 3 bytes; <= 2 chunk sizes < 2^28", unwind=22, timeout=900, also=["C01"])
+   "every u32; literal data <= 3 bytes; <= 2 chunk sizes < 2^28", unwind=22, timeout=900, also=["C01"], tier="thorough")
 
 # ---------------------------------------------------------------- C06: detection with an offset oracle
 C06_ASSUME = ["decompress_deflate_stream replaced by an offset oracle: accepts (1025 bytes of plaintext) exactly at the true stream start, rejects elsewhere, asserts verify = true",
               "prefix/suffix: 2 symbolic bytes each; the wrapper's own signature is the only signature look-alike in the file"]
-H("k06a_find_zlib", "scan_deflate", ["C06"], unwind=6, unwindset={"next_signature": 12, "signature_hits": 12}, timeout=1200, mem_gb=16,
+H("k06a_find_zlib", "scan_deflate", ["C06"], tier="thorough", unwind=6, unwindset={"next_signature": 12, "signature_hits": 12}, timeout=1200, mem_gb=16,
   claim="a stream behind 78 01 / 78 5E / 78 9C / 78 DA is emitted as a DeflateStream chunk starting exactly after the 2-byte header", functions=["split_into_deflate_streams (zlib arm)", "next_signature"],
   bounds="4 headers x arbitrary 2-byte prefix/suffix", assumptions=C06_ASSUME)
-H("k06b_find_gzip", "scan_deflate", ["C06"], unwind=6, unwindset={"next_signature": 32, "signature_hits": 32, "k06b": 4, "skip_gzip_header": 5}, timeout=1800, mem_gb=20,
+H("k06b_find_gzip", "scan_deflate", ["C06"], tier="thorough", unwind=6, unwindset={"next_signature": 32, "signature_hits": 32, "k06b": 4, "skip_gzip_header": 5}, timeout=1800, mem_gb=20,
   claim="a stream behind a gzip header with any subset of FEXTRA/FNAME/FCOMMENT/FHCRC is emitted as a DeflateStream chunk starting exactly after the header",
   functions=["split_into_deflate_streams (gzip arm)", "skip_gzip_header", "next_signature"], bounds="all 16 flag subsets, FEXTRA length 0..=2, name/comment length 0..=2, any mtime/xfl/os bytes", assumptions=C06_ASSUME)
-H("k06c_find_zip", "scan_deflate", ["C06"], unwind=6, unwindset={"next_signature": 42, "signature_hits": 42}, timeout=1800, mem_gb=20,
+H("k06c_find_zip", "scan_deflate", ["C06"], tier="thorough", unwind=6, unwindset={"next_signature": 42, "signature_hits": 42}, timeout=1800, mem_gb=20,
   claim="a stream behind a ZIP local file header (method 8) is emitted as a DeflateStream chunk starting exactly after name and extra field",
   functions=["split_into_deflate_streams (zip arm)", "parse_zip_stream", "ZipLocalFileHeader::create_and_load"], bounds="name/extra lengths 0..=2 each, all other header fields arbitrary", assumptions=C06_ASSUME)
 
@@ -319,7 +324,7 @@ H("k05d_info_params", "preflate_parameter_estimator", ["C05", "C02", "C08"], unw
              "PreflateParameters::write", "PreflateParameters::read"],
   bounds="every list of <= 2 blocks (stored / fixed / dynamic) with <= 2 tokens each (literals, references 3..=258 / 1..=32768)",
   assumptions=["estimate_preflate_comp_level and estimate_add_policy replaced by range stubs (results in recommend()'s range, min_len and add_policy passed through): the table-based estimators are out of reach"])
-H("k02h_add_policy_range", "add_policy_estimator", ["C02", "C08", "C05"], tier="thorough", unwind=5, unwindset={"estimate_add_policy": 262}, timeout=1800, mem_gb=20,
+H("k02h_add_policy_range", "add_policy_estimator", ["C02", "C08"], tier="thorough", unwind=5, unwindset={"estimate_add_policy": 262}, timeout=1800, mem_gb=20,
   claim="estimate_add_policy returns limits that fit the parameter header's 8-bit field", functions=["add_policy_estimator::estimate_add_policy"],
   bounds="one block: literal, reference (len 3..=258, dist 1), reference (len 3..=258, any distance into the previous match)", outside="longer token sequences")
 
@@ -333,18 +338,18 @@ H("k05g_chain_position_step", "hash_chain", ["C05"], unwind=4, timeout=1500, mem
 H("k10d_public_codec_finish", "cabac_codec", ["C10"], unwind=18, timeout=900, mem_gb=14,
   claim="through the public PredictionEncoderCabac / PredictionDecoderCabac types: after any two operations, finish() always terminates the coder and flushes a pending default; the decoder reads the operations back",
   functions=["PredictionEncoderCabac::{new, encode_*, finish}", "PredictionDecoderCabac::{new, decode_*}"], bounds="all pairs of operations (3 kinds each), values < 16, widths <= 4", assumptions=CABAC_ASSUME)
-H("k13c_recreate_idat_partial_writes", "idat_parse", ["C13", "C01"], unwind=6, unwindset={"update_cheap": 12, "recreate_idat": 4, "k13c": 36}, timeout=1200, mem_gb=16,
+H("k13c_recreate_idat_partial_writes", "idat_parse", ["C13", "C01"], unwind=6, unwindset={"update_cheap": 12, "recreate_idat": 4, "k13c": 42}, timeout=1200, mem_gb=16,
   claim="recreate_idat writes identical bytes into a destination that accepts one byte per call and into a Vec", functions=["idat_parse::recreate_idat"],
   bounds="two IDAT chunks (5 + 4 bytes), symbolic payload / header / Adler-32", assumptions=IDAT_ASSUME[1:] + ["FragWrite with one-byte partial writes"])
 
-H("k03f_write_reference", "deflate_reader", ["C03", "C05"], unwind=4, unwindset={"write_reference": 260}, timeout=2400, mem_gb=20,
+H("k03f_write_reference", "deflate_reader", ["C03"], unwind=4, unwindset={"write_reference": 260}, timeout=2400, mem_gb=20,
   claim="DeflateReader::write_reference implements the RFC 1951 window copy (each new byte equals the byte `dist` back), no out-of-range index",
-  functions=["DeflateReader::write_reference"], bounds="every distance 1..=300 x every length 3..=258 (symbolic) over a 300-byte window with position-dependent content")
-H("k03f_write_reference_far", "deflate_reader", ["C03", "C05"], unwind=4, unwindset={"write_reference": 260}, timeout=2400, mem_gb=20,
+  functions=["DeflateReader::write_reference"], bounds="every distance 1..=64 (symbolic) x lengths 3 and 70 (overlapping copy) over a 64-byte window with position-dependent content; the checked output index is symbolic")
+H("k03f_write_reference_far", "deflate_reader", ["C03"], tier="thorough", unwind=4, unwindset={"write_reference": 260}, timeout=2400, mem_gb=20,
   claim="as k03f_write_reference at the far end of a full window", functions=["DeflateReader::write_reference"],
-  bounds="distances 32768, 32767, 4096 (concrete) x every length 3..=258 (symbolic) over a 32768-byte window", outside="other distances above 300")
+  bounds="(distance, length) = (32768,258) (32768,3) (32767,258) (4096,3) over a 32768-byte window", outside="other distances above 300")
 G_UW = {"decode_symbol": 11, "BitReader.*get": 4, "put_bits": 14, "put_code": 10, "k03g": 32, "read_block": 3, "decode_block": 3}
-for nm, tier in (("len_24_28", "quick"), ("dist_24_29", "quick"), ("len_0_7", "thorough"), ("len_8_15", "thorough"), ("len_16_23", "thorough"),
+for nm, tier in (("len_27_28", "quick"), ("dist_28_29", "quick"), ("len_24_28", "thorough"), ("dist_24_29", "thorough"), ("len_0_7", "thorough"), ("len_8_15", "thorough"), ("len_16_23", "thorough"),
                  ("dist_0_7", "thorough"), ("dist_8_15", "thorough"), ("dist_16_23", "thorough")):
     kind, lo, hi = nm.split("_")
     H("k03g_fixed_reader_" + nm, "deflate_reader", ["C03", "C07", "C05"], unwind=6, unwindset=dict(G_UW, len_codes=10, dist_codes=10), timeout=2400, mem_gb=20, needs_gen=True, tier=tier,
@@ -353,6 +358,20 @@ for nm, tier in (("len_24_28", "quick"), ("dist_24_29", "quick"), ("len_0_7", "t
       bounds="%s codes %s..=%s (concrete, looped) x all extra-bit values (symbolic); the other code fixed to its first entry" % (kind, lo, hi),
       outside="a long length code together with a long distance code in one token (independent reads)",
       assumptions=FIXED_ASSUME[:1] + ["write_reference stubbed to a no-op (k03f decides it); bit layout concrete per instance, extra bits symbolic"])
+
+K4("k04j_predict_block_equiv", "token_predictor", "predict_block emits the same correction sequence as the reference build for the same text, tokens, parameters and candidate lists (walk order, nice-length cut-off, lazy rule, hop counting, length/distance corrections)",
+   ["TokenPredictor::predict_block", "TokenPredictor::predict_token", "repredict_reference", "HashChainHolderImpl::{match_token_offset, calculate_hops}", "encode_difference"],
+   "texts <= 7 bytes, <= 3 tokens, <= 2 candidates per position, every parameter vector in estimator_range, 3-byte hash width", unwind=6, unwindset=TOKEN_UW, timeout=5400, mem_gb=30, tier="thorough")
+
+H("k06d_signature_table", "scan_deflate", ["C06", "C05"], unwind=5, timeout=600,
+  claim="next_signature reports a byte pair exactly when it is one of the seven documented signatures, at the right offset, with the right kind",
+  functions=["scan_deflate::next_signature"], bounds="every 3-byte input")
+
+for w in ("h3", "h4"):
+    H("k02e_stored_mirror_" + w, "token_predictor", ["C02", "C08"], unwind=8, unwindset=dict(TOKEN_UW, stored_mirror=8, same_dictionary_updates=18, update_hash=8, predict_block=8, recreate_block=8), timeout=1800, mem_gb=16,
+      claim="stored block: recreate_block(predict_block(b)) == b, and both sides insert exactly the same positions into the dictionary (every add policy)",
+      functions=["TokenPredictor::predict_block / recreate_block (stored arm)", "HashChainHolderImpl::update_hash", "DictionaryAddPolicy::update_hash"],
+      bounds="stored blocks of 1..=6 bytes, every parameter vector in estimator_range (all 5 add policies)", assumptions=MODEL_ASSUME[:2] + ["recording codec Rec"])
 
 
 def version_gate(dst, verif):
